@@ -662,6 +662,16 @@ class Stream:
         if exc is None:
             c["accepted"] += 1
             c["accepted_by_class"][cls] = c["accepted_by_class"].get(cls, 0) + 1
+            # whatever was accepted: the id THE NODE knows the block under must itself be below the stated target
+            try:
+                node_id = real.hash()
+                c["accepted_ids_compared_with_target"] = c.get("accepted_ids_compared_with_target", 0) + 1
+                if not node_id < real.header.summary.target:
+                    self.v("accepted-although-node-id-not-below-target", "class %s: accepted block is known to the node under id "
+                           "%s.., which is not below its stated target %s.." % (cls, node_id.hex()[:12], real.header.summary.target.hex()[:12]),
+                           w or self.witness(world, rblk, now, cls))
+            except Exception:
+                pass
             if len(rblk.txs) > 1:
                 c["accepted_with_ordinary_tx"] += 1
             bad = codes & self.prop_codes
@@ -696,6 +706,40 @@ class Stream:
 
     def post_accept(self, world, rblk, w, cls, now):
         pass
+
+    def attempt_bytes(self, world, rblk, data, now, cls):
+        """a VALID block offered as a byte string that is not its canonical encoding (another spelling of a length/height
+        field): refusing to decode it or refusing the block are both fine; if it is accepted, the id the node assigns must
+        be below the stated target and must be the double SHA-256 of the header bytes it received"""
+        import hashlib
+        from skepticoin.datatypes import Block
+        from skv.runner import digest
+        c = self.c
+        c["byte_level_offers"] = c.get("byte_level_offers", 0) + 1
+        c["by_class"][cls] = c["by_class"].get(cls, 0) + 1
+        self.digests.add(digest(data, now, "bytes"))
+        try:
+            real = Block.deserialize(data)
+        except Exception:
+            c["byte_level_refused_by_decoder"] = c.get("byte_level_refused_by_decoder", 0) + 1
+            return False
+        cs = world.cs
+        try:
+            cs.add_block(real, now)
+        except Exception:
+            c["byte_level_refused_by_validation"] = c.get("byte_level_refused_by_validation", 0) + 1
+            return False
+        c["byte_level_accepted"] = c.get("byte_level_accepted", 0) + 1
+        w = dict(self.witness(world, rblk, now, cls), offered_bytes=data.hex())
+        node_id = real.hash()
+        if not node_id < real.header.summary.target:
+            self.v("accepted-although-node-id-not-below-target", "class %s: a block offered as non-canonical bytes is accepted and "
+                   "known to the node under id %s.., which is not below its stated target" % (cls, node_id.hex()[:12]), w)
+        hdr_len = len(real.header.serialize())
+        if data != rblk.enc():
+            self.v("non-canonical-bytes-accepted-as-block", "class %s: bytes that are not the canonical encoding of the block are "
+                   "decoded and the block is accepted (node id %s.., canonical id %s..)" % (cls, node_id.hex()[:12], rblk.id().hex()[:12]), w)
+        return True
 
     def reoffer(self, world, rng, n=1):
         """a candidate refused earlier is offered again (immediately-after and much-later cases both arise)"""
@@ -750,6 +794,9 @@ class Stream:
             rb = ref.parse_block(bytes.fromhex(hx))
             world.accept(rb, bridge.rblock_to_real(rb), validate=False)
         rb = ref.dec_block(bytes.fromhex(w["candidate"]), strict=False)[0]
+        if "offered_bytes" in w:
+            self.attempt_bytes(world, rb, bytes.fromhex(w["offered_bytes"]), w["now"], w.get("class", "replay"))
+            return
         self.attempt(world, rb, w["now"], w.get("class", "replay"))
 
     def result(self):
